@@ -617,9 +617,12 @@ func targetedCases(flood bool) []*pvCase {
 		}()),
 		mk("reentrant-all", "op", Behaviour{Outcome: "success", DelayMs: 5}, okEnv, seqA()),
 	}
-	if flood {
-		// repeated stop requests against a plugin that has stopped reading its input: the ATP write loop blocks on the
-		// first signal, ten more fit into signalToStep, the twelfth send blocks inside ProvideStageInput with r.lock held
+	_ = flood // kept as a flag for compatibility; the script is cheap now and always runs
+	{
+		// regression detector for the stop-once repair: repeated stop requests against a plugin that has stopped reading
+		// its input.  The stop condition is accepted once (the others are refused), so at most two cancel signals (this
+		// one and run()'s own) ever sit in signalToStep.  Before the repair the ATP write loop blocked on the first
+		// signal, ten more fitted into signalToStep and the twelfth send blocked inside ProvideStageInput with r.lock held.
 		cs = append(cs, mk("cancel-flood-frozen-plugin", "op", Behaviour{Outcome: "hang", IgnoreCancel: true},
 			pvEnv{StartMode: "ok", DeployCfg: "local", Frozen: true}, func() []pvAction {
 				a := full()
@@ -947,7 +950,7 @@ func cmdProvider(args []string) int {
 		fs.BoolVar(&targeted, "targeted", true, "run the targeted scripts first")
 		fs.StringVar(&only, "only", "", "run only the targeted script of that name")
 		fs.IntVar(&repeat, "repeat", 1, "repetitions of every targeted script")
-		fs.BoolVar(&flood, "flood", false, "include the cancel-flood script (takes ~10 s: its calls block)")
+		fs.BoolVar(&flood, "flood", false, "(no-op, kept for compatibility) the cancel-flood script always runs")
 	})
 	w := openOut(c.out)
 	defer w.close()
